@@ -161,11 +161,19 @@ macro_rules! tail_sections {
 fn run_typed<L: Lit + 'static>(fmt: &str, mode: &str, src: SchedSource, chunk: usize) -> RunObs {
     let d = || src.0.borrow().log.len();
     let mut reader = DeferredReader::from_read(src.clone());
-    reader.set_chunk_size(chunk);
+    if chunk < crate::eng_cnf::CTOR_BOXED {
+        reader.set_chunk_size(chunk);
+    }
     let stream = mode == "stream";
     let mut items: Vec<(String, usize)> = vec![];
     if fmt == "aag" {
-        let parser = tr!(items, ascii::Parser::<L>::new(LineReader::new(reader), ascii::Config::default()));
+        let parser = tr!(items, if chunk == crate::eng_cnf::CTOR_FROM_READ {
+            ascii::Parser::<L>::from_read(src.clone(), ascii::Config::default())
+        } else if chunk == crate::eng_cnf::CTOR_BOXED {
+            ascii::Parser::<L>::from_boxed_dyn_read(Box::new(src.clone()), ascii::Config::default())
+        } else {
+            ascii::Parser::<L>::new(LineReader::new(reader), ascii::Config::default())
+        });
         if mode == "parse" {
             let aig = tr!(items, parser.parse());
             items.push(("P".into(), d()));
@@ -183,7 +191,13 @@ fn run_typed<L: Lit + 'static>(fmt: &str, mode: &str, src: SchedSource, chunk: u
         if stream { while let Some(x) = tr!(items, s.next_and_gate()) { items.push((format!("A:{}:{}:{}", x.output.code(), x.inputs[0].code(), x.inputs[1].code()), d())); } }
         tail_sections!(items, s, d)
     } else {
-        let parser = tr!(items, binary::Parser::<L>::new(LineReader::new(reader), binary::Config::default()));
+        let parser = tr!(items, if chunk == crate::eng_cnf::CTOR_FROM_READ {
+            binary::Parser::<L>::from_read(src.clone(), binary::Config::default())
+        } else if chunk == crate::eng_cnf::CTOR_BOXED {
+            binary::Parser::<L>::from_boxed_dyn_read(Box::new(src.clone()), binary::Config::default())
+        } else {
+            binary::Parser::<L>::new(LineReader::new(reader), binary::Config::default())
+        });
         if mode == "parse" {
             let aig = tr!(items, parser.parse());
             items.push(("P".into(), d()));
